@@ -412,6 +412,9 @@ def gen_ops(rng, real=False):
     ops = []
     for _ in range(rng.choice([1, 2, 2, 3, 4])):
         ops.append({'op': 'solve', 'k': (rng.choice([3, 6, 10]) if real else rng.choice([5, 20, 60, 150])), 'it': rng.choice(['euler', 'rk4'])})
+        if not real and rng.random() < 0.2:
+            # a lower step limit just below the stability step: the last step of the call is then usually shorter than the lower limit
+            ops[-1]['minf'] = rng.choice([0.9, 0.6]) / ops[-1]['k']
     return ops
 
 
